@@ -164,6 +164,20 @@ def render_module(uni, slot, module, style=None):
                 r.yield_line[idx] = len(lines)
             r.item_line[idx] = ln + 1
             r.def_name_pos[idx] = (ln + 1, len(kw) + 1, len(kw) + 1 + len(fname))
+        elif k == "testb":
+            # a test whose body uses the names of `ind` as call targets (one per line) without declaring them
+            deps, body = _seq(it["deps"]), _seq(it["ind"])
+            head = "def %s(" % it["name"]
+            col = len(head)
+            for j, d in enumerate(deps):
+                r.use_pos[(idx, "p", j + 1)] = (ln, col, col + len(d))
+                col += len(d) + 2
+            lines.append(head + ", ".join(deps) + "):")
+            for b in body:
+                lines.append("    %s()" % b)
+            if not body:
+                lines.append("    pass")
+            r.item_line[idx] = ln
         elif k == "test":
             marks, cmarks, ind = _seq(it["marks"]), _seq(it["cmarks"]), _seq(it["ind"])
             deps = _seq(it["deps"])
@@ -363,6 +377,14 @@ def pyextract(text, uni=None, slot=None):
                     a = [x for x in args_of(st, True) if x[0] != "request"]
                     items.append({"k": "def", "name": name, "deps": [x[0] for x in a], "scope": scope,
                                   "autouse": autouse, "mod": "-", "marks": [], "cmarks": [], "ind": []})
+                    pos.append({"line": st.lineno, "uses": {("p", j + 1): x[1:] for j, x in enumerate(a)}})
+                elif st.name.startswith("test_") and all(
+                        isinstance(b, ast.Expr) and isinstance(b.value, ast.Call) and isinstance(b.value.func, ast.Name)
+                        and not b.value.args for b in st.body):
+                    # body = bare calls of names: the abstract kind "testb" (body uses, `ind` = the names in order)
+                    a = args_of(st, True)
+                    items.append({"k": "testb", "name": st.name, "deps": [x[0] for x in a], "scope": 0, "autouse": False,
+                                  "mod": "-", "marks": [], "cmarks": [], "ind": [b.value.func.id for b in st.body]})
                     pos.append({"line": st.lineno, "uses": {("p", j + 1): x[1:] for j, x in enumerate(a)}})
                 elif st.name.startswith("test_"):
                     a = args_of(st, True)
